@@ -730,6 +730,8 @@ enum It<'a, B: BitVector> {
     F(BitIterator<'a, B>),
     R(Rev<BitIterator<'a, B>>),
     RR(Rev<Rev<BitIterator<'a, B>>>),
+    R3(Rev<Rev<Rev<BitIterator<'a, B>>>>),
+    R4(Rev<Rev<Rev<Rev<BitIterator<'a, B>>>>>),
     Dead,
 }
 
@@ -748,6 +750,8 @@ where
                         It::F($i) => $e,
                         It::R($i) => $e,
                         It::RR($i) => $e,
+                        It::R3($i) => $e,
+                        It::R4($i) => $e,
                         It::Dead => panic!("harness: iterator call on a dead iterator"),
                     }
                 };
@@ -776,6 +780,8 @@ where
                         It::F(i) => i.count(),
                         It::R(i) => i.count(),
                         It::RR(i) => i.count(),
+                        It::R3(i) => i.count(),
+                        It::R4(i) => i.count(),
                         It::Dead => panic!("harness: iterator call on a dead iterator"),
                     } as i64)
                 }
@@ -785,6 +791,8 @@ where
                         It::F(i) => i.last(),
                         It::R(i) => i.last(),
                         It::RR(i) => i.last(),
+                        It::R3(i) => i.last(),
+                        It::R4(i) => i.last(),
                         It::Dead => panic!("harness: iterator call on a dead iterator"),
                     })
                 }
@@ -793,7 +801,9 @@ where
                     it = match old {
                         It::F(i) => It::R(i.rev()),
                         It::R(i) => It::RR(i.rev()),
-                        It::RR(_) => panic!("harness: at most two rev() per session"),
+                        It::RR(i) => It::R3(i.rev()),
+                        It::R3(i) => It::R4(i.rev()),
+                        It::R4(_) => panic!("harness: at most four rev() per session"),
                         It::Dead => panic!("harness: iterator call on a dead iterator"),
                     };
                     Out::Unit
